@@ -529,6 +529,26 @@ func c11MixedTypes(b *core.B) {
 			b.Violate("wrong-value|mixed-types", fmt.Sprintf("want %q, got %q", c.want, res.Out))
 		}
 	}
+	// distinct struct types of the same name (function-local) and without a name
+	{
+		t := "<%= for (m) in rows { %>[<%= m.Name %>/<%= m.ID %>]<% } %>"
+		rows := []interface{}{c13RowA(), c13RowB(), struct{ A, Name, ID string }{"a", "anon1", "i1"}, struct{ ID, Name, A string }{"i2", "anon2", "a"}, c13RowB(), c13RowA()}
+		want := "[nameA/idA][nameB/idB][anon1/i1][anon2/i2][nameB/idB][nameA/idA]"
+		if b.Begin("same-named types: " + t) {
+			ctx := plush.NewContext()
+			ctx.Set("rows", rows)
+			res := render(b, t, ctx)
+			b.NonTrivialStr(t)
+			b.Count("same-named-struct-types-through-one-node")
+			if res.Pan == nil {
+				if res.Err != nil {
+					b.Violate("valid-rejected|mixed-types|"+core.ErrClass(res.Err), fmt.Sprintf("want %q, got error %v", want, res.Err))
+				} else if res.Out != want {
+					b.Violate("wrong-value|mixed-types|same-named", fmt.Sprintf("want %q, got %q", want, res.Out))
+				}
+			}
+		}
+	}
 	// the same parsed template executed with data of one type, then the other
 	for _, t := range []string{"<%= it.Name %>|<%= it.Tags[0] %>|<%= it.Next.Name %>|<%= it.Label() %>", "<%= items[0].Name %>|<%= items[0].GetTags()[0] %>"} {
 		if !b.Begin("same template, two data types: " + t) {
